@@ -576,6 +576,15 @@ static void agg_case(Rng& rng, const char* tn) {
                << " two-pass=" << (double)mean;
             verif::fail(key + ":mean", os.str());
         }
+        // the synonyms report the same state
+        if (c.average() != c.mean() || c.avg() != c.mean()) verif::fail(key + ":average", dump());
+        if (c.count() && c.span() != (T)(c.max() - c.min())) verif::fail(key + ":span", dump());
+        for (size_t ddof = 0; ddof <= 1; ++ddof) {
+            double vv = c.variance(ddof);
+            if (c.var(ddof) != vv || c.standard_deviation(ddof) != std::sqrt(vv) || c.stdev(ddof) != std::sqrt(vv)) {
+                if (!(std::isnan(vv) && std::isnan(c.var(ddof)))) verif::fail(key + ":var/stdev", dump());
+            }
+        }
         for (size_t ddof = 0; ddof <= 1; ++ddof) {
             double v1 = c.variance(ddof), v2 = all.variance(ddof);
             double ref = n <= 1 ? 0.0 : (double)(ss / (long double)(n - ddof));
